@@ -3,7 +3,8 @@
 //!                                               leaf tokens tile the input) on the implementation alone + summary
 //!   c01 corr   --seed S --n N                -> JSON lines: observations for the Coq model (needs hook H1)
 //!   c01 one    --text-json '"..."' [--level i --doc 0|1]
-use emmylua_parser::{LuaFeaturesSet, LuaLanguageLevel, LuaParser, ParserConfig};
+use emmylua_parser::verif::{MarkEvent, VerifOp, build_from_events, parse_trace};
+use emmylua_parser::{LuaFeaturesSet, LuaLanguageLevel, LuaParser, LuaSyntaxKind, LuaSyntaxNode, LuaTokenKind, ParserConfig, SourceRange};
 use serde_json::{Value, json};
 use std::collections::{HashMap, HashSet};
 use vh_common::{Args, Rng, guarded};
@@ -593,6 +594,204 @@ fn report(text: &str, level: usize, doc: bool, kind: &str, detail: &str, mode: &
     })
 }
 
+
+// ------------------------------------------------------------------------------------------ model tie (hook H1)
+
+fn sk(k: LuaSyntaxKind) -> u16 {
+    k as u16
+}
+fn tk(k: LuaTokenKind) -> u16 {
+    k as u16
+}
+
+/// the tree as a Coq term of type EV.C01.Model.tree
+fn tree_term(node: &LuaSyntaxNode, out: &mut String) {
+    let k: LuaSyntaxKind = node.kind().into();
+    out.push_str(&format!("Node {} [", sk(k)));
+    let mut first = true;
+    for el in node.children_with_tokens() {
+        if !first {
+            out.push(';');
+        }
+        first = false;
+        match el {
+            rowan::NodeOrToken::Node(n) => tree_term(&n, out),
+            rowan::NodeOrToken::Token(t) => {
+                let k: LuaTokenKind = t.kind().into();
+                let r = t.text_range();
+                out.push_str(&format!("Tok {} {} {}", tk(k), u32::from(r.start()), u32::from(r.len())));
+            }
+        }
+    }
+    out.push(']');
+}
+
+fn events_json(events: &[MarkEvent]) -> Vec<Value> {
+    events
+        .iter()
+        .map(|e| match e {
+            MarkEvent::NodeStart { kind, parent } => json!([0, sk(*kind), parent]),
+            MarkEvent::EatToken { kind, range } => json!([1, tk(*kind), range.start_offset, range.length]),
+            MarkEvent::NodeEnd => json!([2]),
+            MarkEvent::Trivia => json!([3]),
+        })
+        .collect()
+}
+
+fn ops_json(ops: &[VerifOp]) -> Vec<Value> {
+    ops.iter()
+        .map(|o| match o {
+            VerifOp::Init => json!(["I"]),
+            VerifOp::Bump => json!(["B"]),
+            VerifOp::SetTokenKind(k) => json!(["T", tk(*k)]),
+            VerifOp::Mark { position, kind } => json!(["M", position, sk(*kind)]),
+            VerifOp::SetKind { position, kind } => json!(["K", position, sk(*kind)]),
+            VerifOp::Complete { position } => json!(["C", position]),
+            VerifOp::PushNodeEnd => json!(["E"]),
+            VerifOp::Undo { position } => json!(["U", position]),
+            VerifOp::Precede { start, position, kind } => json!(["P", start, position, sk(*kind)]),
+            VerifOp::DocBegin { tokens } => json!(["DB", tokens.iter().map(|t| json!([tk(t.kind), t.range.start_offset, t.range.length])).collect::<Vec<_>>()]),
+            VerifOp::DocEat { kind, range } => json!(["DE", tk(*kind), range.start_offset, range.length]),
+            VerifOp::DocEnd => json!(["DX"]),
+        })
+        .collect()
+}
+
+/// decidable discipline predicates evaluated on a real trace (hypotheses the un-modelled grammar is held to)
+fn discipline(events: &[MarkEvent], mark_level: usize) -> Value {
+    // well-bracketed after erasing None starts: depth never negative, ends at 0
+    let (mut depth, mut min_depth) = (0i64, 0i64);
+    let mut end_before_token = false;
+    let mut seen_token = false;
+    for e in events {
+        match e {
+            MarkEvent::NodeStart { kind, .. } if *kind != LuaSyntaxKind::None => depth += 1,
+            MarkEvent::NodeEnd => {
+                depth -= 1;
+                if !seen_token {
+                    end_before_token = true;
+                }
+            }
+            MarkEvent::EatToken { .. } => seen_token = true,
+            _ => {}
+        }
+        min_depth = min_depth.min(depth);
+    }
+    json!({"final_depth": depth, "min_depth": min_depth, "end_before_token": end_before_token, "mark_level": mark_level})
+}
+
+fn observe(text: &str, level: usize, doc: bool) -> Option<Value> {
+    let tr = guarded(|| parse_trace(text, config(level, doc))).ok()?;
+    let root = tr.tree.get_red_root();
+    let mut term = String::new();
+    tree_term(&root, &mut term);
+    let toks: Vec<Value> = tr.tokens.iter().map(|t| json!([tk(t.kind), t.range.start_offset, t.range.length])).collect();
+    let cps: Vec<u32> = text.chars().map(|c| c as u32).collect();
+    // the builder alone, fed the recorded events, must give the same tree
+    let rebuilt = guarded(|| {
+        let g = build_from_events(text, tr.events.clone());
+        let n = LuaSyntaxNode::new_root(g);
+        let mut s = String::new();
+        tree_term(&n, &mut s);
+        s
+    })
+    .unwrap_or_else(|_| "P".to_string());
+    Some(json!({
+        "t": cps, "level": level, "doc": doc, "tokens": toks, "events": events_json(&tr.events), "tree": term,
+        "rebuilt_same": rebuilt == term, "ops": ops_json(&tr.ops), "discipline": discipline(&tr.events, tr.mark_level),
+        "tree_text_ok": root.text().to_string() == text, "nerrors": tr.tree.get_errors().len(),
+    }))
+}
+
+/// arbitrary (mostly NOT well-bracketed) event lists over a dummy text, through the real builder
+fn gen_events(rng: &mut Rng) -> (String, Vec<MarkEvent>) {
+    const TOKS: &[LuaTokenKind] = &[
+        LuaTokenKind::TkWhitespace, LuaTokenKind::TkEndOfLine, LuaTokenKind::TkDocContinue, LuaTokenKind::TkName, LuaTokenKind::TkLocal,
+        LuaTokenKind::TkWhitespace, LuaTokenKind::TkComma, LuaTokenKind::TkInt, LuaTokenKind::TkEndOfLine, LuaTokenKind::TkString,
+    ];
+    const NODES: &[LuaSyntaxKind] = &[
+        LuaSyntaxKind::Block, LuaSyntaxKind::Chunk, LuaSyntaxKind::Comment, LuaSyntaxKind::TypeMultiLineUnion, LuaSyntaxKind::DocDescription,
+        LuaSyntaxKind::LocalStat, LuaSyntaxKind::NameExpr, LuaSyntaxKind::TableArrayExpr, LuaSyntaxKind::None, LuaSyntaxKind::CallExpr,
+        LuaSyntaxKind::Block, LuaSyntaxKind::Comment,
+    ];
+    let n = rng.range(0, 24);
+    let mut evs: Vec<MarkEvent> = Vec::new();
+    let mut pos = 0usize;
+    let mode = rng.below(4); // 0: balanced-ish, 1: too many ends, 2: too few ends, 3: anything
+    let mut open = 0usize;
+    let mut starts: Vec<usize> = Vec::new();
+    for _ in 0..n {
+        match rng.below(10) {
+            0..=3 => {
+                let len = rng.range(1, 3);
+                evs.push(MarkEvent::EatToken { kind: *rng.pick(TOKS), range: SourceRange::new(pos, len) });
+                pos += len;
+            }
+            4..=6 => {
+                starts.push(evs.len());
+                evs.push(MarkEvent::NodeStart { kind: *rng.pick(NODES), parent: 0 });
+                open += 1;
+            }
+            7..=8 => {
+                if open > 0 || mode == 1 || mode == 3 {
+                    evs.push(MarkEvent::NodeEnd);
+                    open = open.saturating_sub(1);
+                }
+            }
+            _ => {
+                // precede: a later start adopted as parent by an earlier one
+                if let Some(&st) = starts.get(rng.below(starts.len().max(1))) {
+                    let m = evs.len();
+                    if let MarkEvent::NodeStart { parent, .. } = &mut evs[st] {
+                        if *parent == 0 || mode == 3 {
+                            *parent = if mode == 3 && rng.chance(1, 6) { rng.below(m + 3) } else { m };
+                        }
+                    }
+                    evs.push(MarkEvent::NodeStart { kind: *rng.pick(NODES), parent: 0 });
+                    evs.push(MarkEvent::Trivia);
+                    open += 1;
+                }
+            }
+        }
+    }
+    if mode == 0 {
+        for _ in 0..open {
+            evs.push(MarkEvent::NodeEnd);
+        }
+    } else if mode == 1 {
+        for _ in 0..open + rng.range(1, 3) {
+            evs.push(MarkEvent::NodeEnd);
+        }
+        let len = rng.range(1, 3);
+        evs.push(MarkEvent::EatToken { kind: *rng.pick(TOKS), range: SourceRange::new(pos, len) });
+        pos += len;
+    }
+    ("x".repeat(pos), evs)
+}
+
+fn observe_events(text: &str, evs: &[MarkEvent]) -> Value {
+    let r = guarded(|| {
+        let g = build_from_events(text, evs.to_vec());
+        let n = LuaSyntaxNode::new_root(g);
+        let mut s = String::new();
+        tree_term(&n, &mut s);
+        (s, n.text().to_string())
+    });
+    let expect: String = {
+        let mut s = String::new();
+        for e in evs {
+            if let MarkEvent::EatToken { range, .. } = e {
+                s.push_str(&text[range.start_offset..range.end_offset()]);
+            }
+        }
+        s
+    };
+    match r {
+        Ok((term, txt)) => json!({"events": events_json(evs), "tree": term, "lossless": txt == expect}),
+        Err(_) => json!({"events": events_json(evs), "tree": "P", "lossless": true}),
+    }
+}
+
 fn corpus_texts() -> Vec<String> {
     let mut v: Vec<String> = [
         "", "\n", "local a = 1\0 local b = 2\n", "{,then", "\u{feff}local x = 1\n", "a\0b", "\0", "--region x\nlocal a = 1\n",
@@ -697,6 +896,33 @@ fn main() {
                 json!({"summary": {"cases": count, "parses": parses, "distinct_nontrivial": distinct.len(), "texts_with_syntax_errors": with_err,
                        "mean_bytes": if count > 0 { bytes_total / count } else { 0 }, "modes": dist, "configs": "8 levels x doc on/off"}})
             );
+        }
+        "corr" => {
+            // real traces: corpus first, then generated texts (small, so that the Coq evaluation stays cheap)
+            let stds = std_files();
+            let mut texts: Vec<String> = corpus_texts();
+            for _ in 0..n {
+                texts.push(gen_text(&mut rng, &stds, maxlen).1);
+            }
+            for (i, t) in texts.iter().enumerate() {
+                let level = if i % 3 == 0 { 7 } else { rng.below(8) };
+                let doc = i % 4 != 1;
+                if let Some(v) = observe(t, level, doc) {
+                    println!("{}", v);
+                }
+            }
+        }
+        "events" => {
+            for _ in 0..n {
+                let (t, evs) = gen_events(&mut rng);
+                println!("{}", observe_events(&t, &evs));
+            }
+        }
+        "trace" => {
+            let t: String = serde_json::from_str(&args.str("text-json", "\"\"")).unwrap();
+            if let Some(v) = observe(&t, args.usize("level", 7), args.usize("doc", 1) == 1) {
+                println!("{}", v);
+            }
         }
         "one" => {
             let t: String = serde_json::from_str(&args.str("text-json", "\"\"")).unwrap();
